@@ -76,3 +76,20 @@ class MergeAlgebra(Lemma):
         # leaves of x and y, then alpha(merge(x, y)) is the sum over the leaves of both
         A, AP, B, BP, Vm, VPm = z3.Reals("A AP B BP Vm VPm")
         yield ("tree induction step: sums add", [Vm == A + B, VPm == AP + BP], z3.And(Vm == A + B, VPm == AP + BP))
+
+
+@register
+class IsqrtUnique(Lemma):
+    """The degree of a mode is unique: l >= 0 with l^2 <= k < (l+1)^2 determines l (so `deg_of` is a function,
+    and the (l, m) <-> k correspondence is a bijection)."""
+    name = "isqrt-unique-and-mode-index-bijection"
+
+    def obligations(self):
+        l1, l2, k, m1, m2 = z3.Ints("l1 l2 k m1 m2")
+        car = lambda l: [l >= 0, l * l <= k, k < (l + 1) * (l + 1)]
+        yield ("degree is unique", car(l1) + car(l2), l1 == l2)
+        # k -> (l, m) -> k  and  (l, m) -> k -> (l, m)
+        yield ("index_k(index_lm(k)) == k", car(l1) + [m1 == k - l1 * (l1 + 1)], l1 * (l1 + 1) + m1 == k)
+        yield ("index_lm(index_k(l, m)) == (l, m)",
+               [l1 >= 0, -l1 <= m1, m1 <= l1, k == l1 * (l1 + 1) + m1] + car(l2) + [m2 == k - l2 * (l2 + 1)],
+               z3.And(l1 == l2, m1 == m2))
